@@ -195,6 +195,46 @@ def conv_geometry(c):
     c.canary("canary_stride_ignored", z3.And(oh == nh + 1, sh.z > 1, nh > 0))
 
 
+def make_conv(P):
+    @contract(P, "Conv2D.forward", [(CONV, "Conv2D.__init__"), (CONV, "Conv2D.forward"), (CONV, "Conv2D.like_synaptic"), (CONV, "Conv2D.selector")] + COMMON, min_obligations=6)
+    def conv_forward(c):
+        bias = c.choice("bias", [False, True])
+        delayed = c.choice("delay", ["none", "zero_max_delay", "delayed"])
+        log = []
+        lf.install(c)
+        pad = c.layout_symbols["pad"]
+        dt, maxdelay = c.real("dt"), c.real("max_delay")
+        c.require(dt > 0, maxdelay > 0)
+        conn = c.call(cls(c, CONV, "Conv2D"), 5, 6, 2, 3, dt, (2, 3), stride=(1, 2), padding=(1, 0), dilation=(2, 1), synapse=lf.synapse_ctor(c, log), bias=bias,
+                      delay=(maxdelay if delayed == "delayed" else (0.0 if delayed == "zero_max_delay" else None)), batch_size=2)
+        w = assign(c, conn, "weight", "W")
+        b = assign(c, conn, "bias", "b") if bias else None
+        d = assign(c, conn, "delay", "d") if delayed != "none" else None
+        sel = c.getattr(conn, "selector")
+        c.ensure("selector_is_the_per_tap_delay_for_every_sample_and_position", fl(sel) == (d if d is not None else 0))
+        x = c.pw("x")
+        log.clear()
+        out = c.outcome(c.getattr(conn, "forward"), T(x.f, "float", None, None, None), extra=7)
+        c.expect_return(out)
+        res = out.value
+        calls = [e for e in log if e[0] == "call"]
+        unfolded = z3.If(pad, z3.RealVal(0), x.f)
+        c.ensure("synapse_stepped_once_with_the_unfolded_input_and_kwargs", z3.And(z3.BoolVal(len(calls) == 1 and len(calls[0][1]) == 1 and calls[0][2] == {"extra": 7}), fl(calls[0][1][0]) == unfolded if calls else z3.BoolVal(False)))
+        syn = c.getattr(conn, "synapse")
+        c.ensure("synapse_current_left_untouched", fl(syn.fields["current"]) == SYN(unfolded))
+        src = HC(d) if delayed == "delayed" else SYN(unfolded)
+        exp = SUM(w * src)
+        if bias:
+            exp = exp + b
+        c.ensure("output_is_kernel_contracted_with_the_" + ("delay_shifted_" if delayed == "delayed" else "") + "unfolded_currents_plus_bias", fl(res) == exp)
+        c.canary("canary_no_kernel", z3.And(fl(res) == SUM(src), w != 1, SUM(src) != SUM(w * src)))
+
+    return conv_forward
+
+
+make_conv("C05")
+
+
 MUTANTS = [
     dict(file=LIN, func="LinearDirect.forward", name="seed C05: in-place arithmetic on the tensor returned by the synapse", contracts=["LinearDirect.forward"],
          old="        if self.biased:\n            res = res * self.weight + self.bias\n        else:\n            res = res * self.weight\n", new="        res *= self.weight\n        if self.biased:\n            res += self.bias\n"),
@@ -211,6 +251,8 @@ MUTANTS = [
     dict(file=CONV, func="Conv2D.__init__", old="- self.dilation[d] * (self.kernel[d] - 1)", new="- self.dilation[d] * self.kernel[d]", contracts=["Conv2D.geometry"]),
     dict(file=CONV, func="Conv2D.__init__", old="                / self.stride[d]\n                + 1", new="                / self.stride[d]\n                + 1.5", contracts=["Conv2D.geometry"]),
     dict(file=LIN, func="LinearDirect.forward", old="            res = res * self.weight + self.bias", new="            res = self.bias + self.weight * res", contracts=["LinearDirect.forward"], expect="survives", name="control: commuted operands"),
+    dict(file=CONV, func="Conv2D.forward", old='            return res + ein.rearrange(self.bias, "f -> 1 f 1 1")', new="            return res", contracts=["Conv2D.forward"]),
+    dict(file=CONV, func="Conv2D.forward", old="        if self.delayedby:\n", new="        if False:\n", contracts=["Conv2D.forward"], name="Conv2D ignores its delays"),
 ]
 ASSUMPTIONS = [
     "C05/C06: layout-free tensor theory - a tensor is its value at one arbitrary index tuple, re-layouts keep it, a contraction is an uninterpreted linear functional of the summand; wrong axis permutations / reshape orders are invisible to it (bounded stand-in)",
